@@ -12,7 +12,7 @@ ID = "C10"
 LEVEL = "exploration"
 RULE = ("case = (single-component design whose update blocks come from a deliberately sloppy expression grammar: operand "
         "widths perturbed independently, int literals of every size (near powers of two, up to 2^100, negative), explicit "
-        "BitsN(...) casts, shifts, temporaries, loop variables, struct fields, if-expressions with bare-int branches as operands, variable part-selects x[lo : hi+K] with equal and with different bound expressions; random input vectors). The component is "
+        "BitsN(...) casts, shifts, temporaries, loop variables, struct fields, if-expressions with bare-int branches as operands, comparison results as operands, temporaries re-assigned after an int literal, variable part-selects x[lo : hi+K] with equal and with different bound expressions; random input vectors). The component is "
         "elaborated and BehavioralRTLIRGenPass + BehavioralRTLIRTypeCheckPass are applied. If the checker accepts: every "
         "expression node of every block is wrapped in a probe (matched to the RTLIR node through the AST position) and the "
         "block is executed on the locked simulator: for each Bits-valued node static width == run-time nbits; for each "
